@@ -28,7 +28,9 @@ def check_op(inp):
     nm, names = _names(inp)
     g = build(inp)
     before = G.snapshot_graph(g)
-    before_ids = dict((v, id(g.next(v))) for v in g.nodes())
+    # identity of the successor sets is compared only if next() hands out stable objects
+    stable = all(g.next(v) is g.next(v) for v in g.nodes())
+    before_ids = dict((v, id(g.next(v))) for v in g.nodes()) if stable else None
     op = inp['op']
     Xabs = inp.get('X', [])
     X = []
@@ -97,7 +99,7 @@ def check_op(inp):
     after = G.snapshot_graph(g)
     if after != before:
         return _fail(inp, 'G changed by the operation', _txt(before[1]), _txt(after[1]))
-    if dict((v, id(g.next(v))) for v in g.nodes()) != before_ids:
+    if before_ids is not None and dict((v, id(g.next(v))) for v in g.nodes()) != before_ids:
         return _fail(inp, 'G\'s successor sets were replaced', 'same objects', 'different objects')
     return None
 
